@@ -74,6 +74,14 @@ type Case struct {
 	Trace      bool   `json:"runtime_trace"`
 	Progs      [][]Op `json:"progs"`
 	Runs       int    `json:"runs"`
+	// RecOnly: bit i set = shared span i is RECORD-ONLY (a custom sampler's
+	// decision: recording, not sampled). It is a recording span like any other:
+	// every clause applies to it.
+	RecOnly int `json:"rec_only,omitempty"`
+	// StartShare: one more registered processor whose OnStart hands "racy"
+	// children (op racychild) to a goroutine of its own, which mutates and
+	// Ends the child while Tracer.Start may still be running.
+	StartShare bool `json:"start_share,omitempty"`
 }
 
 func gen(t *rapid.T) Case {
@@ -83,6 +91,12 @@ func gen(t *rapid.T) Case {
 	c.Trace = rapid.Bool().Draw(t, "runtime_trace")
 	ng := rapid.IntRange(2, 8).Draw(t, "goroutines")
 	kinds := []string{"end", "end", "end", "endts", "attrs", "attrs", "attrs", "event", "event", "link", "error", "status", "name", "isrec", "child", "child", "tracer", "regproc", "unregproc", "flush"}
+	if rapid.IntRange(0, 2).Draw(t, "rec_only_spans") == 0 {
+		c.RecOnly = rapid.IntRange(1, 1<<c.Spans-1).Draw(t, "rec_only")
+	}
+	if c.StartShare = rapid.IntRange(0, 2).Draw(t, "start_share") == 0; c.StartShare {
+		kinds = append(kinds, "racychild", "racychild", "racychild")
+	}
 	for g := 0; g < ng; g++ {
 		n := rapid.IntRange(1, 10).Draw(t, "ops")
 		var ops []Op
@@ -97,6 +111,8 @@ func gen(t *rapid.T) Case {
 				op.C = rapid.IntRange(1, 2).Draw(t, "code")
 			case "child":
 				op.C = rapid.SampledFrom([]int{0, 0, 1, 2}).Draw(t, "child_decision")
+			case "racychild":
+				op.C = rapid.IntRange(0, 3).Draw(t, "sharer_action")
 			}
 			ops = append(ops, op)
 		}
@@ -201,6 +217,45 @@ type opRec struct {
 	start, end int64
 	tag        string
 	recAfter   bool // IsRecording() observed right after the op (end ops)
+	child      trace.SpanID // child / racychild: the span the op started
+}
+
+// shareProcessor hands the children named child.racy.<action>.* it sees in
+// OnStart to a goroutine of its own: that goroutine mutates the span and Ends
+// it, possibly before Tracer.Start has returned to the goroutine that started
+// it (which Ends the child as well).
+type shareProcessor struct {
+	done sync.Map // trace.SpanID -> chan struct{}
+}
+
+func (p *shareProcessor) OnStart(_ context.Context, s sdktrace.ReadWriteSpan) {
+	name := s.Name()
+	if !strings.HasPrefix(name, "child.racy.") {
+		return
+	}
+	ch := make(chan struct{})
+	p.done.Store(s.SpanContext().SpanID(), ch)
+	go func() {
+		defer close(ch)
+		switch name[len("child.racy."):][0] {
+		case '1':
+			s.SetName(name + ".renamed")
+		case '2':
+			s.SetAttributes(attribute.String("sharer", "x"))
+		case '3':
+			s.AddEvent("sharer")
+			_ = s.IsRecording()
+		}
+		s.End()
+	}()
+}
+func (p *shareProcessor) OnEnd(sdktrace.ReadOnlySpan)      {}
+func (p *shareProcessor) Shutdown(context.Context) error   { return nil }
+func (p *shareProcessor) ForceFlush(context.Context) error { return nil }
+func (p *shareProcessor) wait(id trace.SpanID) {
+	if ch, ok := p.done.Load(id); ok {
+		<-ch.(chan struct{})
+	}
 }
 
 // nameSampler drops spans named child.drop.*, records-only child.recordonly.*
@@ -212,12 +267,19 @@ func (nameSampler) ShouldSample(p sdktrace.SamplingParameters) sdktrace.Sampling
 	switch {
 	case strings.HasPrefix(p.Name, "child.drop."):
 		res.Decision = sdktrace.Drop
-	case strings.HasPrefix(p.Name, "child.recordonly."):
+	case strings.HasPrefix(p.Name, "child.recordonly."), strings.HasPrefix(p.Name, "recordonly."):
 		res.Decision = sdktrace.RecordOnly
 	}
 	return res
 }
 func (nameSampler) Description() string { return "c10.nameSampler" }
+
+func spanName(c Case, i int) string {
+	if c.RecOnly>>i&1 == 1 {
+		return fmt.Sprintf("recordonly.span%d", i)
+	}
+	return fmt.Sprintf("span%d", i)
+}
 
 func unlimited() sdktrace.SpanLimits {
 	return sdktrace.SpanLimits{AttributeValueLengthLimit: -1, AttributeCountLimit: -1, EventCountLimit: -1, LinkCountLimit: -1, AttributePerEventCountLimit: -1, AttributePerLinkCountLimit: -1}
@@ -244,6 +306,10 @@ func runOnce(c Case) ([]vk.Violation, map[string]bool) {
 		procs[i] = &recProcessor{clock: clock, ends: map[trace.SpanID][]delivery{}}
 		opts = append(opts, sdktrace.WithSpanProcessor(procs[i]))
 	}
+	share := &shareProcessor{}
+	if c.StartShare {
+		opts = append(opts, sdktrace.WithSpanProcessor(share))
+	}
 	tp := sdktrace.NewTracerProvider(opts...)
 	tr := tp.Tracer("c10")
 	// every regproc op registers a processor of its own (a processor registered
@@ -262,7 +328,7 @@ func runOnce(c Case) ([]vk.Violation, map[string]bool) {
 	starts := make([]time.Time, c.Spans)
 	for i := range spans {
 		starts[i] = time.Unix(1700000000+int64(i), 0)
-		ctxs[i], spans[i] = tr.Start(context.Background(), fmt.Sprintf("span%d", i), trace.WithTimestamp(starts[i]))
+		ctxs[i], spans[i] = tr.Start(context.Background(), spanName(c, i), trace.WithTimestamp(starts[i]))
 	}
 
 	var rmu sync.Mutex
@@ -306,7 +372,14 @@ func runOnce(c Case) ([]vk.Violation, map[string]bool) {
 			case "child":
 				_, ch := tr.Start(ctxs[op.S], [...]string{"child.", "child.drop.", "child.recordonly."}[op.C%3]+r.tag)
 				r.end = clock.Tick() // Start returned
+				r.child = ch.SpanContext().SpanID()
 				ch.End()
+			case "racychild":
+				_, ch := tr.Start(ctxs[op.S], fmt.Sprintf("child.racy.%d.%s", op.C%4, r.tag))
+				r.end = clock.Tick() // Start returned
+				r.child = ch.SpanContext().SpanID()
+				ch.End()
+				share.wait(r.child)
 			case "tracer":
 				_ = tp.Tracer("t." + r.tag)
 			case "regproc":
@@ -437,7 +510,7 @@ func runOnce(c Case) ([]vk.Violation, map[string]bool) {
 		}
 		// mutations
 		childLo, childHi := 0, 0
-		names := map[string]bool{fmt.Sprintf("span%d", s): true}
+		names := map[string]bool{spanName(c, s): true}
 		statuses := map[string]bool{"0/": true}
 		for _, r := range recs {
 			if r.op.S != s {
@@ -504,7 +577,7 @@ func runOnce(c Case) ([]vk.Violation, map[string]bool) {
 					statuses["2/"] = true
 				}
 				continue
-			case "child":
+			case "child", "racychild":
 				if r.end < firstEndIssue[s] {
 					childLo++
 				}
@@ -544,6 +617,32 @@ func runOnce(c Case) ([]vk.Violation, map[string]bool) {
 				classes["child_dropped_or_record_only_by_sampler"] = true
 			}
 		}
+	}
+	// children: started and ended inside one op, so every initial processor
+	// (registered throughout) gets each recording child exactly once and a
+	// dropped child never; a racy child is Ended by two goroutines.
+	for _, r := range recs {
+		if r.op.K != "child" && r.op.K != "racychild" {
+			continue
+		}
+		want := 1
+		if r.op.K == "child" && r.op.C%3 == 1 {
+			want = 0
+		}
+		for pi, p := range procs {
+			p.mu.Lock()
+			n := len(p.ends[r.child])
+			p.mu.Unlock()
+			if n != want {
+				bad("child_delivery_count", "%s %s of span %d (decision %d) was delivered %d time(s) to processor %d, expected %d", r.op.K, r.tag, r.op.S, r.op.C, n, pi, want)
+			}
+		}
+		if r.op.K == "racychild" {
+			classes["child_shared_from_OnStart_and_ended_by_two_goroutines"] = true
+		}
+	}
+	if c.RecOnly != 0 {
+		classes["record_only_shared_span"] = true
 	}
 	if len(vs) > 0 {
 		var h []string
